@@ -71,6 +71,9 @@ func (e *Engine) calleeKey(cc *ssa.CallCommon) string {
 			k, _ := e.fieldKey(stT, fa.Field)
 			return "field:" + strings.TrimPrefix(k, "F:")
 		}
+		if g, ok := v.X.(*ssa.Global); ok {
+			return "field:" + g.Pkg.Pkg.Path() + "." + g.Name() // package-level func variable
+		}
 	case *ssa.Field:
 		k, _ := e.fieldKey(v.X.Type(), v.Field)
 		return "field:" + strings.TrimPrefix(k, "F:")
@@ -547,7 +550,7 @@ func (vf *VerifyFunc) havocLoc(st *State, fc *FuncContract, m ModLoc, env map[st
 				}
 				ev := &evaluator{st: st, vf: vf, env: env, pkgPath: fc.PkgPath}
 				r := ev.eval(x.Args[0])
-				ref := ev.asRef(r)
+				ref := ev.toSort(r, specSort(g.Params[0]))
 				h := st.heapGet(key, as)
 				inner := ghostInnerSort(g)
 				nv := st.fresh("modg_"+x.Fun, inner)
@@ -604,7 +607,9 @@ func ghostInnerSort(g *GhostFn) string {
 	}
 	return s
 }
-func ghostFieldSort(g *GhostFn) string { return "(Array Int " + ghostInnerSort(g) + ")" }
+func ghostFieldSort(g *GhostFn) string {
+	return "(Array " + specSort(g.Params[0]) + " " + ghostInnerSort(g) + ")"
+}
 
 // ---- builtins ---------------------------------------------------------
 
